@@ -1662,9 +1662,9 @@ theorem rup_fields (m : Mdl) (k : Nat) (t : RTree) (p : Path) (a depth : Nat) (i
   dsimp only
   split <;> exact ⟨rfl, rfl, rfl, rfl⟩
 
-theorem rdown_fields (t : RTree) (p : Path) (st : Step) :
-    (rdown t p st).1.nN = upd t.nN p (t.nN p + 1) ∧ (rdown t p st).1.nA = t.nA ∧ (rdown t p st).1.stops = t.stops ∧
-    (rdown t p st).1.aN = t.aN := by
+theorem rdown_fields (m : Mdl) (t : RTree) (p : Path) (st : Step) :
+    (rdown m t p st).1.nN = upd t.nN p (t.nN p + 1) ∧ (rdown m t p st).1.nA = t.nA ∧ (rdown m t p st).1.stops = t.stops ∧
+    (rdown m t p st).1.aN = t.aN := by
   unfold rdown RTree.updBK
   simp only
   split <;> exact ⟨rfl, rfl, rfl, rfl⟩
@@ -1726,9 +1726,9 @@ theorem rsim_spec (m : Mdl) (H k : Nat) : ∀ (fuel : Nat) (t : RTree) (p : Path
       · rename_i hc
         simp only [Bool.and_eq_true, decide_eq_true_eq] at hc
         obtain ⟨⟨⟨hs, ha⟩, _⟩, _⟩ := hc
-        obtain ⟨d1, d2, d3, d4⟩ := rdown_fields t p st
+        obtain ⟨d1, d2, d3, d4⟩ := rdown_fields m t p st
         -- the invariant after `rdown`
-        have hdown : ∀ pend, RCnt pend t → RCnt (upd pend p (pend p + 1)) (rdown t p st).1 := by
+        have hdown : ∀ pend, RCnt pend t → RCnt (upd pend p (pend p + 1)) (rdown m t p st).1 := by
           intro pend hI
           refine ⟨fun q => ?_, fun q a hqa => ?_⟩
           · rw [d1, d2, d3, d4]
@@ -1807,23 +1807,23 @@ theorem rsim_spec (m : Mdl) (H k : Nat) : ∀ (fuel : Nat) (t : RTree) (p : Path
             refine ⟨⟨[st], rfl, by simp; omega, ⟨hs, trivial⟩⟩, fun pend hI => ?_, fun q => ?_, ?_, ?_, fun q hq => ?_⟩
             rotate_left 2
             · rw [(rup_fields m k _ p st.a depth _).2.2.1]
-              show upd (rdown t p st).1.stops _ _ [] = _
+              show upd (rdown m t p st).1.stops _ _ [] = _
               simp only [upd, hne0, if_false]; rw [d3]
             · rw [(rup_fields m k _ p st.a depth _).1]
-              show upd (rdown t p st).1.nN _ _ p = _
+              show upd (rdown m t p st).1.nN _ _ p = _
               simp only [upd, hnep, if_false]; rw [d1]; simp [upd]
             · have hne : q ≠ p := fun h => hq (h ▸ List.prefix_refl _)
               have hqc : q ≠ p ++ [(st.a, st.o)] := fun h => hq (h ▸ List.prefix_append _ _)
               rw [(rup_fields m k _ p st.a depth _).1]
-              show upd (rdown t p st).1.nN _ _ q = _
+              show upd (rdown m t p st).1.nN _ _ q = _
               simp only [upd, hqc, if_false]; rw [d1]; simp [upd, hne]
             · have h1 := hdown pend hI
-              have h2 : RCnt (upd pend p (pend p + 1)) (rleaf (rdown t p st).1 (p ++ [(st.a, st.o)])) := by
+              have h2 : RCnt (upd pend p (pend p + 1)) (rleaf (rdown m t p st).1 (p ++ [(st.a, st.o)])) := by
                 refine ⟨fun q => ?_, fun q a hqa => h1.out q a hqa⟩
                 have hc := h1.cnt q
-                show upd (rdown t p st).1.nN (p ++ [(st.a, st.o)]) ((rdown t p st).1.nN (p ++ [(st.a, st.o)]) + 1) q
-                  = sumTo ((rdown t p st).1.aN q) ((rdown t p st).1.nA q)
-                    + upd (rdown t p st).1.stops (p ++ [(st.a, st.o)]) ((rdown t p st).1.stops (p ++ [(st.a, st.o)]) + 1) q
+                show upd (rdown m t p st).1.nN (p ++ [(st.a, st.o)]) ((rdown m t p st).1.nN (p ++ [(st.a, st.o)]) + 1) q
+                  = sumTo ((rdown m t p st).1.aN q) ((rdown m t p st).1.nA q)
+                    + upd (rdown m t p st).1.stops (p ++ [(st.a, st.o)]) ((rdown m t p st).1.stops (p ++ [(st.a, st.o)]) + 1) q
                     + upd pend p (pend p + 1) q
                 by_cases hq : q = p ++ [(st.a, st.o)]
                 · subst hq
@@ -1833,9 +1833,9 @@ theorem rsim_spec (m : Mdl) (H k : Nat) : ∀ (fuel : Nat) (t : RTree) (p : Path
                 · simp only [upd, hq, if_false]
                   simp only [upd] at hc
                   exact hc
-              exact hup _ _ pend h2 (by show st.a < (rdown t p st).1.nA p; rw [d2]; exact ha)
+              exact hup _ _ pend h2 (by show st.a < (rdown m t p st).1.nA p; rw [d2]; exact ha)
             · rw [(rup_fields m k _ p st.a depth _).2.1]
-              left; show (rdown t p st).1.nA q = t.nA q; rw [d2]
+              left; show (rdown m t p st).1.nA q = t.nA q; rw [d2]
       · simp at h
 
 /-- `n` simulations from the root -/
@@ -1878,8 +1878,7 @@ theorem rcall_fresh_spec (m : Mdl) (k : Nat) (t t' : RTree) (support : List Nat)
     (∃ useds : List (List Step), log = useds.flatten ++ rest ∧ useds.length = iters ∧ ∀ u ∈ useds, u.length ≤ H ∧ ∃ s, IsChain s u) ∧
     t'.nN [] = iters ∧ t'.nN [] = sumTo (t'.aN []) (t'.nA []) ∧
     ∀ q, t'.nN q = sumTo (t'.aN q) (t'.nA q) + t'.stops q := by
-  unfold rcall at hc
-  simp only at hc
+  simp only [rcall, rprepare] at hc
   split at hc
   · omega
   · split at hc
@@ -1907,11 +1906,12 @@ end R
 /-! ### Witnesses: the hypotheses are satisfiable, and the source's rollout length breaks the horizon -/
 
 /-- a two-action model, every reward 1, discount 1/2, never terminal, rollout length as in the source (`+ 1`) -/
-def exM : Mdl := { pomcp := false, gamma := 1/2, rollOff := 1, rollGuard := false, explPos := true, numA := fun _ => 2,
+def exM : Mdl := { pomcp := false, gamma := 1/2, rollOff := 1, rollGuard := false, bonus := fun _ _ => .nan, uctSlack := none, numA := fun _ => 2,
                    valid := fun st => st.r == 1 && !st.term }
 def exStep (a : Nat) : Step := { s := 0, a := a, s1 := 0, o := 0, r := 1, term := false }
-/-- horizon 2, two iterations: each simulation creates a leaf at depth 1 and rolls out 2 more steps -/
-def exLog : List Step := [exStep 0, exStep 0, exStep 1, exStep 0, exStep 1, exStep 0, exStep 0, exStep 1]
+/-- horizon 2, two iterations: the first creates a leaf at depth 1 and rolls out 3 more steps, the second descends into it.
+    (The bonus of `exM` is `NaN` everywhere, so the scan of `findBestBonusA` always stays on action 0.) -/
+def exLog : List Step := [exStep 0, exStep 1, exStep 0, exStep 1, exStep 0, exStep 0]
 def exOp : Op := Op.fresh [0] 2 2 2
 
 theorem exM_bnd : Bnd exM 1 1 := by
@@ -1921,9 +1921,9 @@ theorem exM_bnd : Bnd exM 1 1 := by
 
 /-- test (evaluation on literals): the example log is a run, the hypotheses of all theorems above are satisfiable
     by a non-trivial tree (root visited twice, both actions tried once) -/
-theorem ex_reach : ∃ t, Reach exM t ∧ t.nN [] = 2 ∧ t.aN [] 0 = 1 ∧ t.aN [] 1 = 1 ∧ t.ex [(0, 0)] = true := by
+theorem ex_reach : ∃ t, Reach exM t ∧ t.nN [] = 2 ∧ t.aN [] 0 = 2 ∧ t.nN [(0, 0)] = 1 ∧ t.ex [(0, 0)] = true := by
   have h : (call exM Tree.init exOp exLog).any
-      (fun x => x.1.nN [] == 2 && x.1.aN [] 0 == 1 && x.1.aN [] 1 == 1 && x.1.ex [(0, 0)] && x.2.isEmpty) = true := by decide
+      (fun x => x.1.nN [] == 2 && x.1.aN [] 0 == 2 && x.1.nN [(0, 0)] == 1 && x.1.ex [(0, 0)] && x.2.isEmpty) = true := by decide
   rw [Option.any_eq_true] at h
   obtain ⟨x, hx, hp⟩ := h
   simp only [Bool.and_eq_true, beq_iff_eq] at hp
@@ -1955,7 +1955,7 @@ theorem depth_le_horizon_counterexample :
 theorem v_in_return_range_counterexample :
     ∃ (t' : Tree) (r : Rat) (used : List Step), Sim exM 2 (Tree.fresh [0] 2 4) [] 0 0 used t' r ∧ hiR exM.gamma 1 2 < r := by
   have h : (simulate exM 2 3 (Tree.fresh [0] 2 4) [] 0 0 (exLog.take 4)).map (fun x => x.2.1) = some (15/8) := by
-    simp [simulate, descend, rollout, exLog, exStep, exM, Tree.fresh, Tree.incN, Tree.create, Tree.update, Mdl.key, Mdl.rollLen, uctOk, firstUntried]
+    simp [simulate, descend, rollout, exLog, exStep, exM, Tree.fresh, Tree.incN, Tree.create, Tree.update, Mdl.key, Mdl.rollLen, uctOk, uctOkGen, uctPick, firstBestX, uctScore, xadd, XRat.gt, XRat.lt]
     norm_num
   rw [Option.map_eq_some_iff] at h
   obtain ⟨⟨t', r, rest⟩, hx, hp⟩ := h
@@ -1967,7 +1967,7 @@ theorem v_in_return_range_counterexample :
 
 
 /-- POMCP as in the source: the rollout at a new leaf is not guarded -/
-def exP : Mdl := { pomcp := true, gamma := 1/2, rollOff := 1, rollGuard := false, explPos := true, numA := fun _ => 2,
+def exP : Mdl := { pomcp := true, gamma := 1/2, rollOff := 1, rollGuard := false, bonus := fun _ _ => .nan, uctSlack := none, numA := fun _ => 2,
                    valid := fun _ => true }
 def exT1 : Step := { s := 0, a := 0, s1 := 1, o := 0, r := 1, term := true }
 def exT2 : Step := { s := 1, a := 1, s1 := 1, o := 0, r := 1, term := true }
